@@ -47,17 +47,18 @@ Theorem C02_whole_input_accepted :
 Proof. exact @whole_input_accepted. Qed.
 Print Assumptions C02_whole_input_accepted.
 
-(* Accept-soundness for the arithmetic core (literals incl. the polymorphic 0, identifiers and
-   units, unary operators, + - -> * / ^const, comparisons, == !=, && ||, if, calls of functions
-   everything except list literals) in well-formed environments (env_ok: monomorphic entries have a
+(* Accept-soundness for every expression form of the model (literals incl. the polymorphic 0,
+   identifiers and units, unary operators, + - -> * / ^const, comparisons, == !=, && ||, if, calls
+   of functions, list literals: empty, with a closed first element type, with an open one)
+   in well-formed environments (env_ok: monomorphic entries have a
    meaning; generalised, quantified entries — generic library and user functions, polymorphic
    values — have a meaning under every instantiation of their bound variables that respects their
    Dim bounds; instantiation of quantified schemes with fresh variables is covered): if the elaborator accepts e with type t and the solver solves the
    generated constraints with sigma, then in EVERY valuation that is an instance of sigma, gives
    the Dim-bounded variables dimensions and is well-sorted, e has — by the declarative dimensional
    analysis has_ty of Dim/Sem.v — exactly the dimension/type that t denotes, which is also what
-   the reported type `sigma t` denotes.  (Polymorphic environment entries and list literals are
-   outside this theorem; that every ground instance of the reported type arises from such a
+   the reported type `sigma t` denotes.  (Outside this theorem: function DEFINITIONS — that the
+   generalised scheme a definition adds to the environment satisfies env_ok again; that every ground instance of the reported type arises from such a
    valuation — idempotence of sigma — is not proved.) *)
 Theorem C02_accept_sound :
   forall (e : expr) (s : tc) (t : ty) (ns : list ty) (s1 : tc) (sigma : subst) (dts : list var),
@@ -177,6 +178,16 @@ Proof.
     destruct (String.eqb x "meter"); [intro H; inversion H; subst; split; [constructor|intros; unfold tdef; simpl; eauto]|].
     destruct (String.eqb x "second"); [intro H; inversion H; subst; split; [constructor|intros; unfold tdef; simpl; eauto]|discriminate].
 Qed.
+
+(* ... and the list rule is exercised: `[meter, 2 meter]` is accepted with type List<Length>, while
+   `[meter, second]` is rejected by the very loop the proof is about *)
+Example C02_accept_list_nonvacuous :
+  core (EList [EUnit "meter"; EBin OMul (EScalar (qc 2)) (EUnit "meter")])
+  /\ (match elab_expr (EList [EUnit "meter"; EBin OMul (EScalar (qc 2)) (EUnit "meter")]) ex_env0 with
+      | Ok (t, _, _) => ty_eqb t (TList (TDim [(FBase "Length", Qc1)])) | Err _ => false end) = true
+  /\ (match elab_expr (EList [EUnit "meter"; EUnit "second"]) ex_env0 with
+      | Err EIncompatibleTypesInList => true | _ => false end) = true.
+Proof. split; [repeat constructor|]. split; vm_compute; reflexivity. Qed.
 
 (* env_ok is satisfiable for a generic entry: sqrt-like  forall D: Dim. (D^2) -> D *)
 Example C02_env_ok_polymorphic :
